@@ -280,6 +280,15 @@ def after_step(ex, ctx, step, op):
             return fail('views:search', 'after step %d %r find_all(%r) returns %d nodes, the tree contains %d'
                         % (step, op, name, sum(got_ids.values()), sum(exp_ids.values())))
         ctx.count('searches_after_edit')
+    # searches by opening marker (\begin{name}) see renames / inserted envs
+    for c, _, _, _, _ in list(D.walk(m))[:40]:
+        if c.kind == 'env':
+            q = '\\begin{%s}' % c.name
+            exp_ids = Counter(id(e) for e in R.search(soup.expr, q))
+            got_ids = Counter(id(g.expr) for g in soup.find_all(q))
+            if exp_ids != got_ids or id(c.real) not in got_ids:
+                return fail('views:search', 'after step %d %r find_all(%r) returns %d nodes, the tree contains %d'
+                            % (step, op, q, sum(got_ids.values()), sum(exp_ids.values())))
     for node, parent in enum_nodes(soup):
         if node.parent is not parent:
             return fail('views:parent', 'after step %d %r a node has the wrong parent' % (step, op))
